@@ -428,6 +428,9 @@ def main(run):
         sweep_cfgs = [(1, 1, True, "c"), (2, 1, False, "c"), (1, 2, True, "s")]
         sw = [(p, o) for (ns_, rt, e0, kd) in sweep_cfgs
               for p, o in gen_nstart.enum_cases(depth, ns_, rt, e0, client=(kd == "c"))]
+        # ... and two sessions sharing the context's send queue, using the same message ids
+        d2 = 4 if quick else 5
+        sw += list(gen_nstart.enum_cases2(d2, [(1, 1, True, True), (1, 1, True, False)]))
         sl = [gen_nstart.line_of(p, o) for p, o in sw]
         sc, scr = run_cases(drv, sl, chunk=5000, t_chunk=60)
         sm, _ = vlib.run_lines_robust(model, sl)
@@ -454,7 +457,9 @@ def main(run):
         run.cov["leaf_sweep"] = {"cases": len(sl), "disagreements": sbad,
                                  "exhaustive_over": "all histories of exactly %d events over {S con, S non, "
                                  "A/R/T/P of each id submitted so far (<= 3), U, F1, F4} for (NSTART, "
-                                 "max_retransmit, established at start) in %s" % (depth, sweep_cfgs)}
+                                 "max_retransmit, established at start, kind) in %s; plus all histories of "
+                                 "exactly %d events of two sessions (client + server-side, NSTART 1, same "
+                                 "message ids) on one context" % (depth, sweep_cfgs, d2)}
         run.cov["evaluations"] += len(sl)
 
     # thorough tier: the compiled proofs are re-checked by the independent checker
